@@ -150,7 +150,7 @@ UNPROVED += [
     'hash_seed_independence (not expressible in a Lean model; sampled)',
 ]
 UNPROVED = [u for u in UNPROVED if not u.startswith('rename_equivariant_thresholds')]
-REQUIRED_COUNTERS = ['perm', 'rename', 'rename_int', 'mj_partial_heavy', 'reverse_sort_rename', 'hashseed', 'modelled', 'symmetric_pair', 'all_perms', 'symmetric_profile']
+REQUIRED_COUNTERS = ['perm', 'rename', 'rename_int', 'rename_person', 'mj_partial_heavy', 'reverse_sort_rename', 'hashseed', 'modelled', 'symmetric_pair', 'all_perms', 'symmetric_profile']
 RULE = ('every deterministic evaluator family x generated profiles (2-5 candidates) x 3 permutations of insertion order x 3 bijective '
         'renamings (one reversing string sort order, one to multi-character random names, one permuting the base names) in-process, and a '
         'sample of the cases in subprocesses under PYTHONHASHSEED in {0,1,2,3,random}; small profiles (<= 3 entries quick, <= 4 thorough) under '
@@ -178,7 +178,8 @@ def _names_variants(rng, m):
     ints = list(range(m))
     rng.shuffle(ints)                                                  # small ints iterate in VALUE order inside sets / frozensets:
     #                                                                    an int renaming steers which member a set yields first
-    return [('reverse_sort_rename', rev), ('rename', rnd), ('rename', shuf), ('rename_int', ints), ('rename_int', ints[::-1])]
+    return [('reverse_sort_rename', rev), ('rename', rnd), ('rename', shuf), ('rename_int', ints), ('rename_int', ints[::-1]),
+            ('rename_person', 'PERSONS')]
 
 
 def _distinct_strengths(prof):
@@ -319,6 +320,10 @@ def impl(case):
     for p in case['perms']:
         out['perms'].append(fam_mod.run_family(f, p, case['n'], base_names))
     for nm in case['renamings']:
+        if nm == 'PERSONS':          # votelib.candidate.Person objects: compared and hashed by identity, set order by address
+            import votelib.candidate
+            m = max(fam_mod.candidates_of(fam_mod.base_vtype(f.vtype), case['prof'])) + 1
+            nm = [votelib.candidate.Person(f'person {i}') for i in range(m)]
         out['renamed'].append(fam_mod.run_family(f, case['prof'], case['n'], Names(nm)))
     for s in case['hashseeds']:
         if '_hs' in case and s in case['_hs']:
